@@ -23,6 +23,7 @@ static bool replay(const vf::Case& c, std::string* why) {
 }
 
 static void run(const vf::Args& a, vf::Evidence& ev, vf::Reporter& rep) {
+  vf::History::enabled() = true;  // failing cases carry the cases that ran just before them (state between calls)
   EV = &ev;
   ev.rule = "rapidcheck, constructive: fields (year: any int64 incl. the limits of the representable range; month/day incl. month "
             "ends and leap days; hour/minute; second 0..60; 0-20 fraction digits; offset none | Z | +-hh[:mm[:ss]]) x a format from "
